@@ -384,6 +384,67 @@ def compare(ctx, nodes, seed, depth):
     ctx.maximum("max_depth_crossings", wire_crossings(nodes))
 
 
+def _shared_callable(x):
+    return ("ran", x)
+
+
+def two_connections_one_callable(ctx, idx):
+    """'a call made through a connection runs the target on THAT connection's peer': two connections whose peers expose the very
+    same callable object (same process, same addresses - as after a reconnect, or with servers forked from one parent); the
+    asynchronous wrappers made for the two proxies must each call through their own connection, also after the first connection
+    has gone."""
+    import rpyc
+
+    class Svc(rpyc.Service):
+        def __init__(self, tag):
+            self.tag = tag
+            self.calls = []
+
+        def exposed_get(self):
+            return _shared_callable
+
+        def exposed_who(self):
+            return self.tag
+
+        def exposed_note(self, x):
+            self.calls.append(x)
+            return (self.tag, x)
+    s1, s2 = Svc("one"), Svc("two")
+    p1 = vnet.ServedPair(rpyc.VoidService(), s1, cfg_a={"sync_request_timeout": 20}, cfg_b={"allow_public_attrs": True})
+    p2 = vnet.ServedPair(rpyc.VoidService(), s2, cfg_a={"sync_request_timeout": 20}, cfg_b={"allow_public_attrs": True})
+    wit = dict(family="two-connections-one-callable", index=idx)
+    try:
+        f1, f2 = p1.a.root.get(), p2.a.root.get()
+        a1, a2 = rpyc.async_(f1), rpyc.async_(f2)
+        n1 = rpyc.async_(p1.a.root.note)
+        n2 = rpyc.async_(p2.a.root.note)
+        w0 = p2.net.nwrites
+        r2 = a2(idx).value
+        if r2 != ("ran", idx) or p2.net.nwrites == w0:
+            ctx.violation("C01/two-connections/asynchronous-call-went-elsewhere", "an asynchronous call through connection 2's proxy of a callable that connection 1 "
+                          "also holds gave %r and caused %d writes on connection 2: it did not travel over its own connection" % (r2, p2.net.nwrites - w0), wit)
+        if (n1("x").value, n2("y").value) != (("one", "x"), ("two", "y")) or s1.calls != ["x"] or s2.calls != ["y"]:
+            ctx.violation("C01/two-connections/method-call-went-elsewhere", "asynchronous calls of the two connections' own methods ran %r / %r" % (s1.calls, s2.calls), wit)
+        if idx % 2:
+            del a1, f1, n1
+            p1.close()
+            try:
+                r = rpyc.async_(f2)(idx + 1).value
+            except Exception as e:
+                r = "%s: %s" % (type(e).__name__, e)
+            if r != ("ran", idx + 1):
+                ctx.violation("C01/two-connections/call-fails-after-other-connection-closed", "after connection 1 was closed, an asynchronous call through "
+                              "connection 2 ended with %r" % (r,), wit)
+        ctx.case(("two-connections", idx % 2), nontrivial=True)
+        ctx.count("two_connection_scenarios")
+    except Exception as e:
+        ctx.violation("C01/two-connections/aborted/%s" % type(e).__name__, "scenario aborted: %r" % (e,), wit)
+    finally:
+        f1 = f2 = a1 = a2 = n1 = n2 = None
+        p1.close()
+        p2.close()
+
+
 def make_program(seed, depth):
     import random
     nodes = gen_program(random.Random(seed), depth)
@@ -394,6 +455,9 @@ def make_program(seed, depth):
 
 def run(ctx):
     rng = ctx.rng
+    if ctx.shard[0] == 0:
+        for i in range(6):
+            two_connections_one_callable(ctx, i)
     n = ctx.budget(800, 40000)
     maxd = 8 if ctx.quick else 30
     for i in range(n):
